@@ -636,4 +636,5 @@ def run_case(case):
                   'judged': [[j[0], j[1], j[2]] for j in bench.judged],
                   'spinner_turns': bench.turns}
     sigs = ['%s|%d|%d' % (j[0], case['k'], case['surround']) for j in same]
-    return {'evals': 1, 'sigs': sigs, 'stats': stats, 'violations': violations, 'sample': sample}
+    return {'evals': max(1, len(bench.judged)), 'sigs': sigs, 'stats': stats,
+            'violations': violations, 'sample': sample}
